@@ -2,7 +2,7 @@
    sortrec after parse), printing ignores null members, and the printed form of a readable value
    is parsed back to that value without its null members (round trip). *)
 From Coq Require Import String.
-From Coq Require Import List ZArith Strings.Byte Bool Lia Permutation.
+From Coq Require Import List ZArith Strings.Byte Bool Lia Permutation Sorting.Sorted.
 From Verif Require Import Base.Wire Json.Utf8 Json.Json Json.Number Json.Lexer Json.C14n
   Json.JsonProofs Json.LexProofs.
 Import ListNotations.
@@ -741,3 +741,144 @@ Qed.
 
 Lemma readable_norm v : readable v -> readable (norm v).
 Proof. intro H. unfold norm. now apply readable_strip, readable_sortrec. Qed.
+
+(* ------------------------------------------------------------------------------------------ *)
+(* the property-level statements (canon = the fixed code)                                       *)
+(* ------------------------------------------------------------------------------------------ *)
+Lemma canon_spec t : canon t = bind (parse t) (fun v => print (sortrec v)).
+Proof.
+  unfold canon, canon_at, parse, print. rewrite unmarshal_sortrec. fold idm.
+  destruct (unmarshal_with cfg_fixed idm t); reflexivity.
+Qed.
+
+Lemma canon_prints_norm t v o : parse t = Ok v -> canon t = Ok o -> print (norm v) = Ok o.
+Proof.
+  intros Hp Hc. rewrite canon_spec, Hp in Hc. cbn [bind] in Hc.
+  unfold norm, print in *. now apply marshal_strip.
+Qed.
+
+Lemma canon_accepts_only_parsed t o : canon t = Ok o -> exists v, parse t = Ok v /\ print (norm v) = Ok o.
+Proof.
+  intros Hc. pose proof Hc as Hc'. rewrite canon_spec in Hc'.
+  destruct (parse t) as [v| |] eqn:E; try discriminate. exists v. split; auto.
+  eapply canon_prints_norm; eauto.
+Qed.
+
+Lemma canon_invariant t1 t2 v1 v2 o1 o2 :
+  parse t1 = Ok v1 -> parse t2 = Ok v2 -> norm v1 = norm v2 ->
+  canon t1 = Ok o1 -> canon t2 = Ok o2 -> o1 = o2.
+Proof.
+  intros P1 P2 Hn C1 C2.
+  pose proof (canon_prints_norm _ _ _ P1 C1) as H1. pose proof (canon_prints_norm _ _ _ P2 C2) as H2.
+  rewrite Hn in H1. congruence.
+Qed.
+
+Lemma parse_ints_ok t v : parse t = Ok v -> ints_ok v = true.
+Proof. apply parse_with_ints_ok. Qed.
+
+Lemma canon_parses_back t v o : parse t = Ok v -> floats_ok v -> canon t = Ok o -> parse o = Ok (norm v).
+Proof.
+  intros Hp Hf Hc. pose proof (canon_prints_norm _ _ _ Hp Hc) as Hn.
+  assert (HR : readable (norm v)) by (apply readable_norm, readable_split; [eapply parse_ints_ok; eauto | auto]).
+  rewrite (parse_print _ _ Hn HR). now rewrite strip_norm.
+Qed.
+
+Lemma canon_idempotent t v o : parse t = Ok v -> floats_ok v -> canon t = Ok o -> canon o = Ok o.
+Proof.
+  intros Hp Hf Hc. rewrite canon_spec, (canon_parses_back _ _ _ Hp Hf Hc). cbn [bind].
+  rewrite sortrec_norm. eapply canon_prints_norm; eauto.
+Qed.
+
+Lemma canon_injective t1 t2 v1 v2 o :
+  parse t1 = Ok v1 -> parse t2 = Ok v2 -> floats_ok v1 -> floats_ok v2 ->
+  canon t1 = Ok o -> canon t2 = Ok o -> norm v1 = norm v2.
+Proof.
+  intros P1 P2 F1 F2 C1 C2.
+  pose proof (canon_parses_back _ _ _ P1 F1 C1) as H1. pose proof (canon_parses_back _ _ _ P2 F2 C2) as H2.
+  congruence.
+Qed.
+
+(* member order: same content up to the order of members with different names *)
+Lemma canon_member_order t1 t2 v1 v2 o1 o2 :
+  parse t1 = Ok v1 -> parse t2 = Ok v2 -> same_content v1 v2 -> dupfree v1 = true ->
+  canon t1 = Ok o1 -> canon t2 = Ok o2 -> o1 = o2.
+Proof.
+  intros P1 P2 HS HD. eapply canon_invariant; eauto. now apply norm_same_content.
+Qed.
+
+(* ---- shape: members of every object of a normalised value are in byte order ---- *)
+Fixpoint keys_sorted (v : jv) : Prop :=
+  match v with
+  | JArr l => all_list keys_sorted l
+  | JObj m => StronglySorted (fun a b => bytes_ltb (fst b) (fst a) = false) m /\ all_list (fun kv => keys_sorted (snd kv)) m
+  | _ => True
+  end.
+
+Lemma StronglySorted_filter {A} (R : A -> A -> Prop) p l : StronglySorted R l -> StronglySorted R (filter p l).
+Proof.
+  induction 1; cbn; [constructor|]. destruct (p a); auto. constructor; auto.
+  rewrite Forall_forall in *. intros x Hx. apply filter_In in Hx. apply H0. tauto.
+Qed.
+
+Lemma StronglySorted_map_val (f : jv -> jv) l :
+  StronglySorted kle l -> StronglySorted kle (map (onval f) l).
+Proof.
+  induction 1; cbn; constructor; auto.
+  rewrite Forall_forall in *. intros x Hx. apply in_map_iff in Hx. destruct Hx as [y [<- Hy]].
+  unfold kle, onval in *. cbn. now apply H0.
+Qed.
+
+Lemma keys_sorted_sortrec v : keys_sorted (sortrec v).
+Proof.
+  induction v using jv_ind2; cbn [sortrec keys_sorted]; auto.
+  - apply all_list_Forall. rewrite Forall_forall in *. intros y Hy.
+    apply in_map_iff in Hy. destruct Hy as [x [<- Hx]]. auto.
+  - split; [apply sort_sorted|].
+    apply all_list_Forall. eapply Permutation_Forall; [symmetry; apply sort_perm|].
+    rewrite Forall_forall in *. intros y Hy. apply in_map_iff in Hy. destruct Hy as [x [<- Hx]]. cbn. auto.
+Qed.
+
+Lemma keys_sorted_strip v : keys_sorted v -> keys_sorted (strip v).
+Proof.
+  induction v using jv_ind2; auto.
+  - cbn. intros HS. apply all_list_Forall. apply all_list_Forall in HS.
+    rewrite Forall_forall in *. intros y Hy. apply in_map_iff in Hy. destruct Hy as [x [<- Hx]]. auto.
+  - rewrite strip_obj. cbn [keys_sorted]. intros [HS HA]. split.
+    + apply StronglySorted_filter. now apply (StronglySorted_map_val strip).
+    + apply all_list_Forall. apply all_list_Forall in HA.
+      rewrite Forall_forall in *. intros y Hy. apply filter_In in Hy. destruct Hy as [Hy _].
+      apply in_map_iff in Hy. destruct Hy as [x [<- Hx]]. cbn. auto.
+Qed.
+
+Lemma keys_sorted_norm v : keys_sorted (norm v).
+Proof. unfold norm. apply keys_sorted_strip, keys_sorted_sortrec. Qed.
+
+(* no member of a normalised object is null *)
+Fixpoint no_null_members (v : jv) : Prop :=
+  match v with
+  | JArr l => all_list no_null_members l
+  | JObj m => all_list (fun kv => is_null (snd kv) = false /\ no_null_members (snd kv)) m
+  | _ => True
+  end.
+
+Lemma no_null_members_strip v : no_null_members (strip v).
+Proof.
+  induction v using jv_ind2; cbn [strip no_null_members]; auto.
+  - apply all_list_Forall. rewrite Forall_forall in *. intros y Hy.
+    apply in_map_iff in Hy. destruct Hy as [x [<- Hx]]. auto.
+  - apply all_list_Forall. rewrite Forall_forall in *. intros y Hy. apply filter_In in Hy. destruct Hy as [Hy Hn].
+    apply in_map_iff in Hy. destruct Hy as [x [<- Hx]]. cbn in *. split; auto.
+    now destruct (is_null (strip (snd x))).
+Qed.
+
+(* ---- escapes: what encodeString writes for an ASCII byte is the README's table ---- *)
+Definition readme_piece (b : byte) : bytes :=
+  let z := bZ b in
+  if z =? 34 then [c_bs; ch 34] else if z =? 92 then [c_bs; c_bs]
+  else if z =? 8 then [c_bs; ch 98] else if z =? 9 then [c_bs; ch 116] else if z =? 10 then [c_bs; ch 110]
+  else if z =? 12 then [c_bs; ch 102] else if z =? 13 then [c_bs; ch 114]
+  else if z <? 32 then [c_bs; c_u; c_0; c_0; hex_upper (z / 16); hex_upper (z mod 16)]
+  else [b].
+
+Lemma escapes_are_readme b : (bZ b <? 128) = true -> (if safe b then [b] else escape b) = readme_piece b.
+Proof. intro H. destruct b; try (vm_compute in H; discriminate H); reflexivity. Qed.
